@@ -365,3 +365,11 @@ mod tests {
         assert!(result.is_err());
     }
 }
+
+#[cfg(vibrato_verif)]
+impl CharProperty {
+    /// Returns the category names indexed by category id (verification hook).
+    pub fn verif_categories(&self) -> &[String] {
+        &self.categories
+    }
+}
